@@ -145,6 +145,17 @@ def run(ctx):
             Xs = qx.mm(qx.mm(V, D), qx.herm(U))
             if qx.maxabs(qx.sub(Xs, Te)) > Fraction(1, 10 ** 8) * max(1, qx.maxabs(Xs)): viol('C03:third:recurrence', 'third-order iterate is not V diag(t_k/s) U^H with t <- 1-(1-t)^3', inp0, float(qx.maxabs(qx.sub(Xs, Te))))
         ctx.count(('third', cls, m, n, [a.t() for row in A for a in row]), True)
+        # the iteration budget is the number of steps taken, 0 included: with tol = 0 the histories have exactly that many entries and
+        # budget 0 returns the starting matrix A^H / ||A||_F^2 itself
+        if f2 != 0:
+            X0 = [[Q(*[Fraction(c) / f2 for c in a.t()]) for a in r] for r in qx.herm(A)]
+            for nm, mk in (('third', lambda kb: solver.HigherOrderNewtonSchulzPseudoinverse(max_iter=kb, tol=0.0)), ('damped', lambda kb: solver.NewtonSchulzPseudoinverse(gamma=1.0, max_iter=kb, tol=0.0))):
+                for kb in (0, 1):
+                    try: Xb, resb, covb = mk(kb).compute(An)
+                    except Exception as e: viol(f'C03:{nm}:budget:raises', f'{nm} solver raised {e!r} for an iteration budget of {kb}', dict(inp0, max_iter=kb)); continue
+                    if len(resb['AXA-A']) != kb or len(covb) != kb: viol(f'C03:{nm}:budget:{kb}', f'an iteration budget of {kb} (tol = 0) produced {len(resb["AXA-A"])} residual entries and {len(covb)} step entries', dict(inp0, max_iter=kb), (len(resb['AXA-A']), len(covb)))
+                    elif kb == 0 and np.all(np.isfinite(quaternion.as_float_array(Xb))) and qx.maxabs(qx.sub(qx.from_np(Xb), X0)) > Fraction(1, 10 ** 9) * max(Fraction(1, 10 ** 300), qx.maxabs(X0)):
+                        viol(f'C03:{nm}:budget:0:start', f'budget 0 does not return the starting matrix A^H / ||A||_F^2', dict(inp0, max_iter=0), float(qx.maxabs(qx.sub(qx.from_np(Xb), X0))))
         if m * n <= 9 and not cls.startswith('spectral-scaled') and (f2 == 0 or max(len(str(Fraction(c).denominator)) for row in A for a in row for c in a.t()) < 12):
             h = '[' + '; '.join('(' + ', '.join(Ql(sq(res3[k][i])) for k in ('AXA-A', 'XAX-X', 'AX-herm', 'XA-herm')) + ')' for i in range(K3)) + ']'
             tterms.append(f'({m}%nat, {n}%nat, {K3}%nat, {qmat_lit(A)}, {h}, {qmat_lit(Te)})')
